@@ -753,9 +753,15 @@ Proof.
   destruct (tc_node e Hu k s n Hs Hn) as (_ & G2 & _). exists k. rewrite G2. exact Hs.
 Qed.
 
-(* the guard [not_empty_base] is needed: the implementation (like the parser) gives  [][0] == [][0]
-   the type bool without an error, the specification gives  [][0]  no type *)
+(* the guard [not_empty_base] is needed: the implementation (like the parser) gives  [][0]  the type
+   none without an error, the specification gives  [][0]  no type.
+   (Until /repo c2a6828 the witness was  [][0] == [][0]  typed bool; validateBinaryType now rejects
+   none-typed operands, Types.validate_binary mirrors that, so the comparison is an error on both sides.) *)
 Lemma not_empty_base_needed :
-  let e := EBin OpEq (EIndex (EArr []) ELitNum) (EIndex (EArr []) ELitNum) in
-  (exists n, tc e = ONode n false /\ node_type n = TBool) /\ spec_tc e = None.
+  let e := EIndex (EArr []) ELitNum in
+  (exists n, tc e = ONode n false /\ node_type n = TNone) /\ spec_tc e = None.
 Proof. vm_compute. split; [eexists; split; reflexivity|reflexivity]. Qed.
+
+Lemma none_operand_comparison_rejected_now :
+  tc (EBin OpEq (EIndex (EArr []) ELitNum) (EIndex (EArr []) ELitNum)) = ONil.
+Proof. vm_compute. reflexivity. Qed.
